@@ -11,7 +11,7 @@ GEN = ['GPolicy.v', 'GChecks.v', 'GParser.v']
 
 
 def refs_of(text):
-    return re.findall(r'(?<![^\s(])rule:([^\s()]+)', text)
+    return re.findall(r'(?<![^\s(])rule:([^\s()]*)', text)
 
 
 def graph_spec(rules):
@@ -53,7 +53,9 @@ def impl_check(rules, skip_undefined=False):
 
 SHAPES = ['role:x', '@', 'rule:{0}', 'not rule:{0}', 'rule:{0} and rule:{1}', 'role:x or rule:{0}',
           'not (role:x and not rule:{0})', '(rule:{0} or rule:{1}) and role:x', 'rule:{0} and not rule:{0}',
-          'not not rule:{1}', 'rule:zz', 'role:x and not rule:zz']
+          'not not rule:{1}', 'rule:zz', 'role:x and not rule:zz',
+          # a role check whose value is the name of a rule referenced next to it; a reference to the empty name
+          'role:{0} or rule:{0}', 'role:{1} and rule:{0}', 'role:x and rule:', 'not rule:']
 
 
 def run(run, binfo):
@@ -90,6 +92,10 @@ def run(run, binfo):
             leaves = ['role:x', 'role:y'] + ['rule:' + rng.choice(nm) for _ in range(2)]
             if rng.random() < 0.2:
                 leaves.append('rule:undefined')
+            if rng.random() < 0.15:
+                leaves.append('rule:')
+            if rng.random() < 0.3:
+                leaves.append('role:' + rng.choice(nm))
             rules[n] = render_expr(rng, leaves, rng.randint(1, 6))
         sets.append(rules)
     run.count('exhaustive_rule_sets', nexh)
